@@ -7,6 +7,7 @@ import search_chan as sc
 import cont_chan as cc
 import types_chan as tc
 import macro_chan as mc
+import own_chan as oc
 
 
 # ----------------------------------------------------------------------------
@@ -838,5 +839,37 @@ class C14(CaseSpec):
         return None
 
 
-REGISTRY = {"C14": C14, "C16": C16, "C11": C11, "C12": C12, "C13": C13, "C18": C18, "C01": C01, "C02": C02, "C03": C03, "C04": C04, "C05": C05, "C06": C06, "C07": C07, "C08": C08,
+# ----------------------------------------------------------------------------
+# C19: ownership
+# ----------------------------------------------------------------------------
+class C19(CaseSpec):
+    def cases(self, tier, rng):
+        out = []
+        for cls in ("D", "U"):
+            out += oc.gen_enumerated(cls, rng, tier)
+            out += oc.gen_random(cls, rng, 3000 if tier == "thorough" else 150)
+        return out
+
+    def exhaustive(self, tier):
+        return ("8 graph shapes on <=3 nodes (self-loops, cycles, parallel edges, still connected) x every subset of {clone, edge, path, result vector, container} "
+                "holding them x every drop order when <=4 objects are alive (sampled orders beyond)")
+
+    def rule(self):
+        return ("ownership histories with drop-logging node values on all four flavours: after every step the set of node values released during that step must equal "
+                "the model's (Own.v: strong = occurrences in live handles/edges/paths/result vectors/containers; adjacency entries are weak); objects still held are "
+                "used after other handles are gone; searches/iteration over dangling adjacency entries must panic exactly where the model predicts. "
+                "non-trivial = at least one connect and one drop that releases nothing or several nodes")
+
+    def nontrivial(self, case):
+        return any(s.startswith("ocon") for s in case.steps)
+
+    def assumptions(self):
+        return ["'released exactly once' at the memory level is Rc/Arc's guarantee; the model carries the ownership STRUCTURE (who is strong, who is weak)",
+                "the drop-logging payload (harness) observes releases faithfully"]
+
+    def oracle(self, case, flavour, obs):
+        return oc.oracle_own(case, obs)
+
+
+REGISTRY = {"C19": C19, "C14": C14, "C16": C16, "C11": C11, "C12": C12, "C13": C13, "C18": C18, "C01": C01, "C02": C02, "C03": C03, "C04": C04, "C05": C05, "C06": C06, "C07": C07, "C08": C08,
             "C09": C09, "C10": C10}
